@@ -137,7 +137,27 @@ func TestVerifC01Valid(t *testing.T) {
 // ---- accepted byte strings ----
 
 // vfAcceptedOracle is oracle O2: x was accepted by the parser as b.
+// vfNearExpiry tells whether the accepted encoding expires within 5 s: the parser reads its
+// own clock, so a second parse a moment later may legitimately reject it.
+func vfNearExpiry(x []byte) bool {
+	w, err := vk.ReadBundle(x)
+	if err != nil {
+		return false
+	}
+	res := vk.ValidateRules(w, vfNowDtn(), 5000)
+	for _, u := range res.Undecidable {
+		if u == vk.RExpired {
+			return true
+		}
+	}
+	return res.Has(vk.RExpired)
+}
+
 func vfAcceptedOracle(c *vk.Ctx, x []byte, b Bundle) {
+	if vfNearExpiry(x) {
+		c.Class("accepted input expires within 5 s (not judged: depends on the clock)")
+		return
+	}
 	id := b.ID().String()
 	y, err := vfWrite(&b)
 	if err != nil {
@@ -252,6 +272,9 @@ func FuzzVerifC01(f *testing.F) {
 // vfAcceptedOraclePlain is O2 without a Ctx (for the native fuzz target); it returns the
 // failure text ("[tag] message") or "".
 func vfAcceptedOraclePlain(x []byte, b Bundle) (msg string) {
+	if vfNearExpiry(x) {
+		return ""
+	}
 	id := b.ID().String()
 	y, err := vfWrite(&b)
 	if err != nil {
